@@ -93,6 +93,10 @@ mod imp {
         pub fn server_threads(&self) -> Vec<String> {
             self.0.server_reader_threads()
         }
+        /// bytes the server has taken from this connection so far
+        pub fn consumed(&self) -> i64 {
+            self.0.counters().0 as i64
+        }
         pub fn local_addr_string(&self) -> Option<String> {
             None
         }
@@ -291,6 +295,9 @@ mod imp {
         pub fn set_window(&self, _w: Option<usize>) {}
         pub fn server_threads(&self) -> Vec<String> {
             Vec::new()
+        }
+        pub fn consumed(&self) -> i64 {
+            -1
         }
         pub fn local_addr_string(&self) -> Option<String> {
             match self {
